@@ -42,6 +42,16 @@ chk("C13", "exploration",
     "Splitting is at top-level item boundaries only. Expected lines come from the generator's own text (newlines counted once). Oracles with expectations first establish that the fault-free source is accepted silently.",
     "deterministic simulation: simulated file tree + failing-target injection + history/recovery probes, flat-vs-split differential oracle", "7/C13")
 
+chk("C17", "exploration",
+    "Seeded search over simulated file namespaces (regular file / directory / unreadable / absent at every candidate location, distinct marker per file), passwd databases (known and unknown users, effective uid with or without an entry) and search-path sequences (existing, missing, duplicated, tilde-prefixed directories); every result of cfg_searchpath, cfg_tilde_expand, cfg_parse and include() is compared with a 40-line reference resolver (first directory in add order holding a regular file; absolute bypass; tilde via passwd), results must be fresh blocks, top-level parse and include must pick the same file (marker), and the whole history must be identical under allocator fill bytes 0x00 / 0xA5 / 0xFF while the simulated getpwnam measures its argument under ASan.",
+    "Trusts the reference resolver. Uninitialised-memory dependence is decided by the fill-byte differential and ASan, not MSan.",
+    "deterministic simulation: simulated file namespace + passwd database, reference resolver model, fill-byte differential", "7/C17")
+
+chk("C04", "exploration",
+    "Seeded conversions through every route (parser scalar and list element, cfg_setopt, cfg_setmulti by name/by option) for int, float and bool options, each preceded by an injected ambient errno (0, ERANGE, EINVAL, ENOENT, EINTR, EBADF, 12345). Every plan is re-executed under other ambient errno values and with all process-global state scrubbed before each call: outcomes must be identical (the history/errno clause, which only a simulator-style harness reaches). Each outcome is also compared with exact reference models (128-bit integer model per radix, decimal float grammar + strtod value, boolean word table): accepted iff complete in-range numeral/word, exact value, rejection always with a diagnostic. Tokens: all strings of length <= 4 over a 14-symbol numeral alphabet (sampled quick, cycled completely thorough) plus 110 boundary tokens.",
+    "Reference models encode my reading of the statement; forms the statement is silent about (sign before 0x/0b, upper-case prefixes, inf/nan, hex floats, underflow) are explicit don't-cares.",
+    "deterministic simulation: ambient-errno fault injection with differential oracles (O-errno, O-scrub) plus reference conversion models", "7/C04")
+
 PENDING = {}  # id -> reason (checks not built yet)
 
 def main():
